@@ -79,6 +79,9 @@ def spec():
                             "requestBody": {"required": True, "content": {"application/json": {"schema": {"$ref": "#/components/schemas/Item"}},
                                                                           "application/x-www-form-urlencoded": {"schema": {"type": "object"}}}},
                             "responses": {"200": ok}}},
+        # a cookie next to a JSON body and nothing else: the shortest request call the generator writes (one line)
+        "/notes": {"post": {"operationId": "addNote", "parameters": [_p("sid", "cookie")], "requestBody": {"required": True, "content": jitem}, "responses": {"201": ok}},
+                   "put": {"operationId": "putNote", "parameters": [_p("sid", "cookie", True), _p("k", "query")], "responses": {"200": ok}}},
         # a path variable that no parameter declares, next to an optional declared parameter (required arguments come first)
         "/implicit/{vid}/{wid}": {"get": {"operationId": "getImplicit", "parameters": [_p("q", "query"), _p("wid", "path", True), _p("X-Opt", "header")], "responses": {"200": ok}}},
         # enum-typed parameters in every location (the wire carries the member's VALUE)
@@ -118,6 +121,8 @@ OPS = {
     "send_xml": dict(method="PUT", path="/xml", params=[], body=("bytes_content", "data", "bytes")),
     "get_snapshot": dict(method="GET", path="/snapshots/{takenAt}/{day}", params=[
         ("taken_at", "takenAt", "path", True, "datetime"), ("day", "day", "path", True, "date"), ("since", "since", "query", False, "datetime")], body=None),
+    "add_note": dict(method="POST", path="/notes", params=[("sid", "sid", "cookie", False, "str")], body=("body", "json", "item"), status=201),
+    "put_note": dict(method="PUT", path="/notes", params=[("sid", "sid", "cookie", True, "str"), ("k", "k", "query", False, "str")], body=None),
     "get_implicit": dict(method="GET", path="/implicit/{vid}/{wid}", params=[
         ("vid", "vid", "path", True, "str"), ("wid", "wid", "path", True, "str"), ("q", "q", "query", False, "str"), ("x_opt", "X-Opt", "header", False, "str")], body=None),
     "paint_it": dict(method="GET", path="/paint/{tone}", params=[
